@@ -24,7 +24,8 @@ var mutatorNames = map[string]bool{
 }
 
 type effectSite struct {
-	Func   string // funcKey of the caller
+	Func   string   // funcKey of the function containing the call
+	Chain  []string // Func and the functions it is a private helper of (ownerChain)
 	Callee string
 	Flags  string // for OpenFile: symbolic flags, "" otherwise
 	Write  bool
@@ -32,12 +33,34 @@ type effectSite struct {
 	Call   *ast.CallExpr
 }
 
-func (e effectSite) Key() string {
-	k := e.Func + " -> " + e.Callee
+func (e effectSite) Key() string { return e.keyFor(e.Func) }
+
+func (e effectSite) keyFor(fn string) string {
+	k := fn + " -> " + e.Callee
 	if e.Flags != "" {
 		k += "[" + e.Flags + "]"
 	}
 	return k
+}
+
+// OwnedBy: is the site inside fn or inside a private helper of fn?
+func (e effectSite) OwnedBy(fn string) bool {
+	for _, k := range e.Chain {
+		if k == fn {
+			return true
+		}
+	}
+	return false
+}
+
+// KeyIn returns the site's key under the first owner that the table knows (its own function's otherwise).
+func (e effectSite) KeyIn(table map[string]string) string {
+	for _, fn := range e.Chain {
+		if _, ok := table[e.keyFor(fn)]; ok {
+			return e.keyFor(fn)
+		}
+	}
+	return e.Key()
 }
 
 func openFlags(info *types.Info, e ast.Expr) (string, bool, bool) {
@@ -91,9 +114,9 @@ func effectSites(r *Repo, p *packages.Package) []effectSite {
 				name := strings.ReplaceAll(fn.FullName(), "*", "")
 				switch {
 				case pkg == "golang.org/x/tools/go/packages" && fn.Name() == "Load":
-					out = append(out, effectSite{Func: funcKey(p, fd), Callee: name, Write: false, Pos: r.Pos(call.Pos()), Call: call})
+					out = append(out, effectSite{Func: funcKey(p, fd), Chain: ownerChain(p, fd), Callee: name, Write: false, Pos: r.Pos(call.Pos()), Call: call})
 				case mutatorPkgs[pkg] && mutatorNames[fn.Name()]:
-					s := effectSite{Func: funcKey(p, fd), Callee: name, Write: true, Pos: r.Pos(call.Pos()), Call: call}
+					s := effectSite{Func: funcKey(p, fd), Chain: ownerChain(p, fd), Callee: name, Write: true, Pos: r.Pos(call.Pos()), Call: call}
 					if fn.Name() == "OpenFile" {
 						var fe ast.Expr
 						sig := fn.Type().(*types.Signature)
@@ -126,9 +149,10 @@ func checkEffectTable(c *Ctx, r *Repo, rule string, pkgs []string, allowed map[s
 			if only != nil && !only(s) {
 				continue
 			}
-			seen[s.Key()] = append(seen[s.Key()], s)
-			if why, ok := allowed[s.Key()]; ok {
-				c.OK(rule, s.Key(), s.Pos, why)
+			key := s.KeyIn(allowed)
+			seen[key] = append(seen[key], s)
+			if why, ok := allowed[key]; ok {
+				c.OK(rule, key, s.Pos, why)
 			} else {
 				c.Fail(rule, "effect|"+s.Key(), s.Pos, fmt.Sprintf("%s calls %s%s, which is not in the table of sites allowed to touch the file system / spawn processes", s.Func, s.Callee, map[bool]string{true: " with flags " + s.Flags}[s.Flags != ""]))
 			}
